@@ -224,13 +224,16 @@ def call_keys(R):
     return [r[1] for r in R.rows if r[1].startswith(('BSC_', 'MSC_')) and r[1] in R.code_of]
 
 
-def run_windows(R, metas, host=None, env_extra=None):
+def run_windows(R, metas, host=None, env_extra=None, prelude=()):
     """metas: [(key, first, last, tid, paths, gstr)] -> impl results"""
     cases = [{'events': window(R, k, f, l, t, p), 'gstr': g} for k, f, l, t, p, g in metas]
-    req = {'cases': cases}
+    # prelude: cases (possibly with other code tables) run first in the same process; their results are dropped
+    req = {'cases': list(prelude) + cases}
     if host is not None:
         req['host'] = host
-    return vlib.run_impl('run_decoders.py', req, timeout=3000, env_extra=env_extra)
+    out = vlib.run_impl('run_decoders.py', req, timeout=3000, env_extra=env_extra)
+    out['results'] = out['results'][len(prelude):]
+    return out
 
 
 def correspond(ctx, name, host, metas, res):
@@ -312,3 +315,37 @@ def handler_constants(R, key, limit=16):
         todo += [c for c in funcs[f][1] if c in funcs]
     out = sorted(v for v in out if 3 < v < 2 ** 64)
     return out[:limit]
+
+
+def scale_pipeline(ctx, R, keys, sizes, why):
+    """through the public API: a call with n complete other calls of the same thread between its START and its END must
+    render exactly like the bare [START, END] pair (sizes past 1024 / 2048 / 4096, where a bounded buffer would show)"""
+    from ..harness import dumps as D
+    rng = ctx.rng
+    gp = R.code_of['BSC_getpid']
+    reqs, info = [], []
+    for key in keys:
+        first = in_domain_first(R, key, rng, flags_in_domain=True)
+        last = [0, 9, 0, 0]
+        code = R.code_of[key]
+        for n in [0] + list(sizes):
+            recs = [D.record(1, first, 7, code | 1)]
+            recs += [D.record(2 + j, [j, j + 1, j + 2, j + 3], 7, gp | 3) for j in range(n)]
+            recs.append(D.record(2 + n, last, 7, code | 2))
+            reqs.append({'file': D.build_v2([(7, 1, b'p')], 0, recs).hex(), 'cfg': {'color': False}, 'calls': ['traces']})
+            info.append((key, n, first, last))
+    res = vlib.run_impl('run_api.py', {'cases': reqs}, timeout=3000)['results']
+    ctx.evaluations += len(reqs)
+    bare = {}
+    for (key, n, first, last), calls in zip(info, res):
+        c = calls[0]
+        mine = [it[4] for it in c['items'] if it[6] == R.code_of[key]]
+        if n == 0:
+            bare[key] = (c['err'], mine)
+            continue
+        ctx.count('scale-window:%d' % n)
+        if (c['err'], mine) != bare[key] or len([it for it in c['items'] if it[6] == R.code_of['BSC_getpid']]) != (n if not c['err'] else -1):
+            ctx.failing.append({'input': {'key': key, 'first': first, 'last': last, 'complete_calls_between_START_and_END': n},
+                                'expected': {'trace of the call': bare[key][1], 'other traces': n},
+                                'actual': {'err': c['err'], 'trace of the call': mine, 'other traces': len(c['items']) - len(mine)},
+                                'why': why})
